@@ -1,6 +1,8 @@
 import sys, json, subprocess, random, time, collections, os
 ROOT = os.path.dirname(os.path.dirname(os.path.abspath(__file__)))
 sys.path.insert(0, ROOT)
+if os.environ.get("VERIF_REPO"):
+    sys.path.insert(0, os.environ["VERIF_REPO"])       # compare against another tree, as ./check does
 from harness import sim, coreenc, coregen
 seed = int(sys.argv[1]) if len(sys.argv) > 1 else 0
 N = int(sys.argv[2]) if len(sys.argv) > 2 else 100
